@@ -6,9 +6,9 @@ manifest:
 coq:
 	python3 tools/translate.py /repo coq
 	sh tools/mkcoqproject.sh
-	$(MAKE) -C coq -k -j16
+	-$(MAKE) -C coq -k -j16
 models: coq
-	python3 tools/build_models.py
+	-python3 tools/build_models.py
 clean:
 	-$(MAKE) -C coq clean
 	rm -rf build coq/Makefile coq/Makefile.conf coq/.Makefile.d coq/*_model.ml coq/*_model.mli
